@@ -352,6 +352,11 @@ func PureBoolDef(e ast.Expr) ast.Expr {
 	} else if _, isTuple := tv.Type.(*types.Tuple); isTuple {
 		return nil
 	}
+	if _, isCall := Unparen(rhs).(*ast.CallExpr); isCall {
+		// the variable holds the result of that one call: a test of the variable is a test of the call's result
+		pureDefMemo[v] = rhs
+		return rhs
+	}
 	pure := true
 	ast.Inspect(rhs, func(nd ast.Node) bool {
 		switch x := nd.(type) {
